@@ -202,7 +202,7 @@ def run_c11(chk: Check) -> int:
         traces.append(record(c["block"], c["eol"], bytes(c["text"]), ident, "tlc:Gen_P1Dec"))
     chk.cov["behaviours_replayed"] = len(cases)
     with mp.Pool(16) as pool:
-        res = pool.map(_job, [(chk.seed * 1000 + 11 + i, 60 if quick else 1500) for i in range(16)])
+        res = pool.map(_job, [(chk.seed * 1000 + 11 + i, 60 if quick else 6000) for i in range(16)])
     traces += [t for r in res for t in r]
     seen, uniq = set(), []
     for t in traces:
